@@ -824,4 +824,204 @@ def canonList : List Y → List Y
   | v :: r => Y.canon v :: canonList r
 end
 
+/-! ## Long-lived element objects: the attributes as state, the methods as operations
+
+The library keeps ONE element object per memory for the whole connection; `update()` may be called again and again
+while the memory content changes.  State = the object's attributes; operations = `update()`, `new_data(addr, data)`
+(the reply to a read, with whatever the memory holds at that time), `write_data()`, `disconnect()`.
+What `update()` re-initialises is read from the source (Gen `*UpdateInit`). -/
+
+/-- what an operation emits: a read / write request to the memory handler, or the `update_finished_cb` call -/
+inductive MemOut
+  | read (addr n : Nat)
+  | write (addr : Nat) (data : List UInt8)
+  | done
+  deriving Repr, DecidableEq
+
+/-- attributes of an `I2CElement` -/
+structure I2CObj where
+  fields : Option (Int × Int × Int × Nat × Nat)    -- version, channel, speed, pitch, roll keys of `elements`
+  address : Option Int                              -- `elements['radio_address']`
+  valid : Bool
+  pending : Bool                                    -- `_update_finished_cb` is set
+  datav0 : Option (List UInt8)
+  deriving Repr, DecidableEq
+
+/-- `I2CElement.__init__` -/
+def I2CObj.fresh : I2CObj := ⟨none, none, false, false, none⟩
+
+inductive I2COp
+  | update
+  | newData (addr : Nat) (data : List UInt8)
+  | writeData
+  | disconnect
+  deriving Repr, DecidableEq
+
+def I2CObj.elems? (s : I2CObj) : Option I2CElems :=
+  s.fields.map fun (v, ch, sp, p, r) => ⟨v, ch, sp, p, r, s.address⟩
+
+/-- the callback block `if self._update_finished_cb: cb(self); self._update_finished_cb = None` -/
+def I2CObj.callback (s : I2CObj) : I2CObj × List MemOut :=
+  if s.pending then ({ s with pending := false }, [.done]) else (s, [])
+
+/-- one method call on the object -/
+def i2cStep (s : I2CObj) : I2COp → Except PyErr (I2CObj × List MemOut)
+  | .update =>
+    if ¬ s.pending then        -- `if not self._update_finished_cb:`
+      .ok ({ s with pending := Gen.C14.i2cUpdateInit.contains "self._update_finished_cb = update_finished_cb" || s.pending,
+                    valid := if Gen.C14.i2cUpdateInit.contains "self.valid = False" then false else s.valid },
+           [.read (Gen.C14.i2cRead1.getD 0 0) (Gen.C14.i2cRead1.getD 1 0)])
+    else .ok (s, [])
+  | .disconnect => .ok ({ s with pending := false }, [])
+  | .writeData =>
+    match s.elems? with
+    | none => .error .keyError
+    | some e => (i2cImage e).map fun img => (s, [.write 0 img])
+  | .newData addr data =>
+    if addr = 0 then
+      if slice data 0 4 = eepromToken then
+        match unpack (parseFmt! Gen.C14.i2cHdrFmt) (slice data 4 15) with
+        | .error e => .error e
+        | .ok [.int v, .int ch, .int sp, .flt p, .flt r] =>
+          let s1 := { s with fields := some (v, ch, sp, p, r) }
+          if v = 0 then
+            let s2 := if (i2cFinish data (v, ch, sp, p, r) none).valid then { s1 with valid := true } else s1
+            .ok s2.callback
+          else if v = 1 then
+            .ok ({ s1 with datav0 := some data }, [.read (Gen.C14.i2cRead2.getD 0 0) (Gen.C14.i2cRead2.getD 1 0)])
+          else .ok (s1, [])
+        | .ok _ => .error .valueError
+      else .ok ({ s with valid := false }).callback
+    else if addr = 16 then
+      match s.datav0 with
+      | none => .error .attributeError
+      | some d0 =>
+        match unpack (parseFmt! Gen.C14.i2cAddrFmt) (slice d0 15 16 ++ slice data 0 4) with
+        | .error e => .error e
+        | .ok [.int up, .int lo] =>
+          let s1 := { s with address := some (Gen.C14.i2cAddrJoin up.toNat lo.toNat : Nat) }
+          let full := d0 ++ data
+          let n := full.length - 1
+          let s2 := if checksum256 (full.take n) == (full.getD n 0).toNat then { s1 with valid := true } else s1
+          .ok s2.callback
+        | .ok _ => .error .valueError
+    else .error .other        -- `done` is unbound for any other address (UnboundLocalError)
+
+/-- serve the read requests of `outs` from the memory, one after the other (the second read of a version-1 block may
+see a memory that changed in between: `mems` gives the content at each successive read) -/
+def i2cServe : Nat → I2CObj → List MemOut → List Mem → Bool → Except PyErr (I2CObj × Bool)
+  | 0, s, _, _, called => .ok (s, called)
+  | _, s, [], _, called => .ok (s, called)
+  | fuel + 1, s, .read a n :: rest, m :: ms, called =>
+    match i2cStep s (.newData a (m.read a n)) with
+    | .error e => .error e
+    | .ok (s', outs) => i2cServe fuel s' (rest ++ outs) ms called
+  | fuel + 1, s, .read _ _ :: rest, [], called => i2cServe fuel s rest [] called
+  | fuel + 1, s, .done :: rest, ms, _ => i2cServe fuel s rest ms true
+  | fuel + 1, s, .write _ _ :: rest, ms, called => i2cServe fuel s rest ms called
+
+/-- `update()` on the object `s`, the replies taken from `m0` (first read) and `m1` (second read, if any):
+the object afterwards and whether the callback was called -/
+def i2cRunUpdate (s : I2CObj) (m0 m1 : Mem) : Except PyErr (I2CObj × Bool) :=
+  match i2cStep s .update with
+  | .error e => .error e
+  | .ok (s', outs) => i2cServe 4 s' outs [m0, m1] false
+
+/-- what an observer sees when the callback fires: validity, and (for a valid image) the fields of its version -/
+def I2CObj.report (r : I2CObj × Bool) : Bool × Bool × Option ((Int × Int × Int × Nat × Nat) × Option Int) :=
+  (r.2, r.1.valid,
+    if r.1.valid then r.1.fields.map fun f => (f, if f.1 = 1 then r.1.address else none) else none)
+
+/-- attributes of an `OWElement` (element values as Latin-1 bytes) -/
+structure OWObj where
+  pins : Option Nat
+  vid : Option Nat
+  pid : Option Nat
+  elements : Dict (List UInt8)
+  valid : Bool
+  pending : Bool
+  deriving Repr, DecidableEq
+
+def OWObj.fresh : OWObj := ⟨none, none, none, [], false, false⟩
+
+inductive OWOp
+  | update
+  | newData (addr : Nat) (data : List UInt8)
+  | disconnect
+  deriving Repr, DecidableEq
+
+def OWObj.callback (s : OWObj) : OWObj × List MemOut :=
+  if s.pending then ({ s with pending := false }, [.done]) else (s, [])
+
+/-- one method call on the object (REPAIRED `update`: fixes/D121-c14.patch re-initialises `elements`) -/
+def owStep (s : OWObj) : OWOp → Except PyErr (OWObj × List MemOut)
+  | .update =>
+    if ¬ s.pending then
+      .ok ({ s with pending := Gen.C14.owUpdateInit.contains "self._update_finished_cb = update_finished_cb" || s.pending,
+                    valid := if Gen.C14.owUpdateInit.contains "self.valid = False" then false else s.valid,
+                    elements := if Gen.C14.owUpdateInit.contains "self.elements = {}" then [] else s.elements },
+           [.read (Gen.C14.owRead1.getD 0 0) (Gen.C14.owRead1.getD 1 0)])
+    else .ok (s, [])
+  | .disconnect => .ok ({ s with pending := false }, [])
+  | .newData addr data =>
+    if addr = 0 then
+      match owHeader (slice data 0 8) with
+      | .error e => .error e
+      | .ok (pins, vid, pid, ok) =>
+        let s1 := { s with pins := some pins, vid := some vid, pid := some pid }
+        if ok then
+          match unpack (parseFmt! Gen.C14.owLenFmt) (slice data 8 10) with
+          | .error e => .error e
+          | .ok [.int _, .int elemLen] =>
+            let fetch : Except PyErr (OWObj × List MemOut) :=
+              .ok (s1, [.read Gen.C14.owRead2Addr (Gen.C14.owRead2Len elemLen.toNat)])
+            if elemLen = 0 then
+              match owElements (slice data 8 11) s1.elements with
+              | .error e => .error e
+              | .ok (some d) =>
+                -- `self._update_finished_cb(self)` without a test: TypeError when no update is pending
+                if s1.pending then .ok ({ s1 with elements := d, valid := true, pending := false }, [.done])
+                else .error .typeError
+              | .ok none => fetch
+            else fetch
+          | .ok _ => .error .valueError
+        else .ok s1.callback
+    else if addr = 8 then
+      match owElements data s.elements with
+      | .error e => .error e
+      | .ok (some d) => .ok ({ s with elements := d, valid := true }).callback
+      | .ok none => .ok s.callback
+    else .ok (s, [])
+
+def owServe : Nat → OWObj → List MemOut → List Mem → Bool → Except PyErr (OWObj × Bool)
+  | 0, s, _, _, called => .ok (s, called)
+  | _, s, [], _, called => .ok (s, called)
+  | fuel + 1, s, .read a n :: rest, m :: ms, called =>
+    match owStep s (.newData a (m.read a n)) with
+    | .error e => .error e
+    | .ok (s', outs) => owServe fuel s' (rest ++ outs) ms called
+  | fuel + 1, s, .read _ _ :: rest, [], called => owServe fuel s rest [] called
+  | fuel + 1, s, .done :: rest, ms, _ => owServe fuel s rest ms true
+  | fuel + 1, s, .write _ _ :: rest, ms, called => owServe fuel s rest ms called
+
+def owRunUpdate (s : OWObj) (m0 m1 : Mem) : Except PyErr (OWObj × Bool) :=
+  match owStep s .update with
+  | .error e => .error e
+  | .ok (s', outs) => owServe 4 s' outs [m0, m1] false
+
+
+def i2cRunOps : I2CObj → List I2COp → Except PyErr I2CObj
+  | s, [] => .ok s
+  | s, op :: rest =>
+    match i2cStep s op with
+    | .error e => .error e
+    | .ok (s', _) => i2cRunOps s' rest
+
+def owRunOps : OWObj → List OWOp → Except PyErr OWObj
+  | s, [] => .ok s
+  | s, op :: rest =>
+    match owStep s op with
+    | .error e => .error e
+    | .ok (s', _) => owRunOps s' rest
+
 end CfVerif.C14
